@@ -225,6 +225,10 @@ class SymVC:
                 self.ensures(name, Sym(zb != 0))
         self.at_path_end(check)
 
+    def library_calls(self, name):
+        """(argument, result) of the calls of a modelled library function on this path (ghost trace)"""
+        return [(e[2], e[3]) for e in self.c.trace if e[0] == "call" and e[1] == name]
+
     def modular(self, qualname, handler):
         """calls of `qualname` are replaced by its contract: handler(interp, func, args, kwargs)"""
         self.I.call_contracts[qualname] = handler
@@ -318,17 +322,30 @@ class SymVC:
         self.c.oblige(f"{self.name_prefix}.{name}", cond, extra_terms=extra_terms, getvals=list(self.getvals))
 
     def ensures_forall(self, name, extents, fn):
+        """prove fn at generic indices; the range of the indices is an antecedent of THIS goal only (adding
+        it to the path facts would make every later obligation vacuous when an extent can be zero)"""
         if not isinstance(extents, (tuple, list)):
             extents = (extents,)
         idx = []
+        rng = []
         for k, n in enumerate(extents):
             v = self.c.fresh(f"g{k}", "Int")
-            self.c.defs.append(z3.And(v >= 0, v < S.z(n)))
+            rng.append(z3.And(v >= 0, v < S.z(n)))
             self.c.add_index_term(v)
             self.c.mark_nonneg(v)
             self.getvals.append({"name": str(v), "kind": "int"})
             idx.append(Sym(v))
-        self.ensures(name, fn(*idx))
+        saved = list(self.c.defs)
+        self.c.defs.extend(rng)         # visible while the body is evaluated (index normalisation, merging)
+        try:
+            body = fn(*idx)
+            goal = S.Implies(Sym(z3.And(*rng)), body)
+            extra_defs = self.c.defs[len(saved) + len(rng):]
+        finally:
+            self.c.defs[:] = saved
+        # definitions of symbols created while evaluating the body stay (they are definitional), the range does not
+        self.c.defs.extend(extra_defs)
+        self.ensures(name, goal)
 
     def ensures_exists(self, name, extent, fn, hints=()):
         """existential postcondition, proved with a witness among the integer terms the execution produced
